@@ -1475,6 +1475,67 @@ func rulePendingPresentOK(c *Ctx) {
 	}
 }
 
+// ---------- R-PEND/keep: whoever parks an item in a pending slot leaves the slot in the table ----------
+
+// rulePendingKept: the function that offers an inbound stream / message to the
+// slot of its id (a send on the slot's channel) does not also delete from the
+// pending table: the slot has to stay findable for the Accept / Dial that has
+// not been called yet - taking it out "because it now has its connection"
+// breaks the dial-first order. Entries leave the table through the expiry
+// wait (and through Accept's own timeout), which run after the item was
+// claimed or given up.
+func rulePendingKept(c *Ctx) {
+	p := c.P
+	n, bad := 0, false
+	for _, f := range p.Funcs {
+		if f.Lit != nil || !notTesting(p, f) {
+			continue
+		}
+		offers := false
+		var dels []*ast.CallExpr
+		var visit func(fn *Func)
+		visit = func(fn *Func) {
+			info := fn.Pkg.TypesInfo
+			walkNoLit(fn.Body, func(x ast.Node) bool {
+				switch y := x.(type) {
+				case *ast.SendStmt:
+					if isPendingChSend(p, info, y) {
+						offers = true
+					}
+				case *ast.CallExpr:
+					if id, ok := callFunIdent(y); ok && id.Name == "delete" && len(y.Args) == 2 {
+						if mt, isMap := info.TypeOf(y.Args[0]).Underlying().(*types.Map); isMap {
+							if strings.HasSuffix(strings.TrimPrefix(mt.Elem().String(), "*"), "Pending") {
+								dels = append(dels, y)
+							}
+						}
+					}
+				case *ast.FuncLit:
+					if lf := p.Lit(y); lf != nil {
+						visit(lf)
+					}
+				}
+				return true
+			})
+		}
+		visit(f)
+		if !offers {
+			continue
+		}
+		n++
+		construct := "the dispatcher leaves the slot in the table"
+		if len(dels) > 0 {
+			bad = true
+			c.R.Violate("R-PEND/keep", p.Pos(dels[0]), f.Name, construct, "the function that parks an inbound item in the pending slot of its id also deletes from the pending table: an Accept (or Dial) for that id that has not been called yet creates a fresh slot and never sees the parked item - the hand-off works only when the local call comes first", nil)
+		} else {
+			c.R.Hold("R-PEND/keep", p.Pos(f.Node()), f.Name, construct, "no delete from a pending table in the function that fills the slots", true)
+		}
+	}
+	if n < 2 && !bad {
+		c.R.Undecided("R-PEND/keep", "", "instance-floor", fmt.Sprintf("only %d functions that offer to a pending slot found, 2 expected (MuxBroker.Run, GRPCBroker.Run)", n))
+	}
+}
+
 // ---------- R-COPY: objects that carry synchronisation state are never copied ----------
 
 // ruleNoCopySync: a struct that (transitively, by value) contains a sync
